@@ -85,9 +85,15 @@ def run_l1(n: int, seed: int) -> list[dict]:
     base = implrun.scratch_dir("l1")
     items = []
     lines = []
-    for i in range(n):
+    n_shapes = 2 * len(gen_api.SHAPES)
+    for i in range(n + n_shapes):
         nc = bool(i % 2)
-        api = gen_api.gen_api(random.Random(seed * 100003 + i // 2), i // 2)
+        if i < n_shapes:
+            api = gen_api.SHAPES[i // 2]()
+            api_seed = "shape:" + gen_api.SHAPES[i // 2].__name__
+        else:
+            api_seed = seed * 100003 + (i - n_shapes) // 2
+            api = gen_api.gen_api(random.Random(api_seed), (i - n_shapes) // 2)
         enc = apienc.api_sx(api)
         module_names = [m.name for m in api.modules.values()] + [q.alias for m in api.modules.values() for q in m.qualified_imports if q.alias]
         line = vlib.sx(["back", nc, enc, []])
@@ -95,7 +101,7 @@ def run_l1(n: int, seed: int) -> list[dict]:
         out.mkdir(parents=True)
         impl = impl_generate(api, nc, out)
         shutil.rmtree(out, ignore_errors=True)
-        items.append({"idx": i, "nc": nc, "api_seed": seed * 100003 + i // 2, "impl": impl, "module_names": module_names})
+        items.append({"idx": i, "nc": nc, "api_seed": api_seed, "impl": impl, "module_names": module_names})
         lines.append(line)
     models = vlib.run_model(lines)
     for it, m in zip(items, models, strict=True):
